@@ -46,6 +46,9 @@ pub struct History {
 pub struct StepOut {
     pub dir: DirInfo,
     pub child: Option<ChildOut>,
+    /// the step ran the alternative build; `dir` is then judged against that build's data
+    #[serde(default)]
+    pub alt: bool,
 }
 
 #[derive(Serialize, Deserialize, Clone, Debug, Default)]
@@ -81,11 +84,27 @@ pub struct Ctx {
     pub q14: Vec<String>,
     pub q14_keep: Vec<usize>,
     pub q14_file: PathBuf,
+    /// a second build of the same code with other embedded data (C15 "written for other data")
+    pub alt: Option<Box<Alt>>,
+}
+
+pub struct Alt {
+    pub launcher: Launcher,
+    pub repo: String,
+    pub shipped: Shipped,
+    pub reference: Reference,
 }
 
 impl Ctx {
     pub fn session(&self, cpus: usize, faults: Vec<Fault>, ops: Vec<Op>) -> Session {
-        Session { cpus, faults, ops, expected_docs: self.expected_docs, repo: self.repo.clone() }
+        Session { cpus, faults, ops, expected_docs: self.expected_docs, repo: self.repo.clone(), alt: false }
+    }
+    /// the data and reference against which step `i` of a trace is judged
+    pub fn side(&self, alt: bool) -> (&Shipped, &Reference) {
+        match (&self.alt, alt) {
+            (Some(a), true) => (&a.shipped, &a.reference),
+            _ => (&self.shipped, &self.reference),
+        }
     }
 }
 
@@ -142,10 +161,18 @@ pub fn run_history(ctx: &Ctx, h: &History, work: &Path, rotate: usize) -> Trace 
                 if s.expected_docs == 0 {
                     s.expected_docs = ctx.expected_docs;
                 }
+                let launcher = match (&ctx.alt, s.alt) {
+                    (Some(a), true) => {
+                        s.repo = a.repo.clone();
+                        s.expected_docs = a.shipped.constants.len();
+                        &a.launcher
+                    }
+                    _ => &ctx.launcher,
+                };
                 if s.repo.is_empty() {
                     s.repo = ctx.repo.clone();
                 }
-                let out = ctx.launcher.simnode(&xdg, work, &format!("s{i}"), &s, rotate);
+                let out = launcher.simnode(&xdg, work, &format!("s{i}"), &s, rotate);
                 if let Some(e) = out.harness_error() {
                     trace.harness_errors.push(format!("step {i}: {e}"));
                 }
@@ -168,8 +195,9 @@ pub fn run_history(ctx: &Ctx, h: &History, work: &Path, rotate: usize) -> Trace 
                 Some(out)
             }
         };
-        let dir = dirstate::inspect(&xdg, &ctx.shipped);
-        trace.steps.push(StepOut { dir, child });
+        let alt = matches!(step, Step::Start { session } if session.alt) && ctx.alt.is_some();
+        let dir = dirstate::inspect(&xdg, ctx.side(alt).0);
+        trace.steps.push(StepOut { dir, child, alt });
     }
     let _ = std::fs::remove_dir_all(work);
     trace
@@ -231,7 +259,8 @@ fn prior_class(ctx: &Ctx, trace: &Trace, step: usize) -> String {
     if step == 0 {
         "meta[absent] index[absent]".to_string()
     } else {
-        trace.steps[step - 1].dir.class(&ctx.reference)
+        let p = &trace.steps[step - 1];
+        format!("{}{}", p.dir.class(ctx.side(p.alt).1), if p.alt { " (other build)" } else { "" })
     }
 }
 
@@ -348,8 +377,9 @@ pub fn judge_c15(ctx: &Ctx, h: &History, trace: &Trace) -> Vec<Violation> {
             last_good_answers = None;
             continue;
         }
+        let reference = ctx.side(so.alt).1;
         // 1. never current before committed
-        if so.dir.meta_is_current(&ctx.reference) {
+        if so.dir.meta_is_current(reference) {
             if let IndexInfo::Open { shipped: false, docs, missing, extra, undecodable, .. } = &so.dir.index {
                 out.push(Violation {
                     property: "C15".into(),
@@ -408,14 +438,14 @@ pub fn judge_c15(ctx: &Ctx, h: &History, trace: &Trace) -> Vec<Violation> {
         }
         // ... and afterwards the directory is current and complete
         let complete = matches!(&so.dir.index, IndexInfo::Open { shipped: true, .. });
-        if !(so.dir.meta_is_current(&ctx.reference) && complete) {
+        if !(so.dir.meta_is_current(reference) && complete) {
             out.push(Violation {
                 property: "C15".into(),
                 clause: "C15.recovery-state".into(),
                 step: i,
                 detail: format!(
                     "after the undisturbed start at step {i} the directory is {} (expected current metadata over the complete shipped index); before: {}",
-                    so.dir.class(&ctx.reference),
+                    so.dir.class(reference),
                     prior_class(ctx, trace, i)
                 ),
                 focus: vec![],
@@ -424,7 +454,7 @@ pub fn judge_c15(ctx: &Ctx, h: &History, trace: &Trace) -> Vec<Violation> {
         }
         // 3. a following reopen gives the same answers
         let disk_owned: Vec<Answer> = disk.iter().map(|a| (*a).clone()).collect();
-        if let Some((pi, prev)) = &last_good_answers {
+        if let Some((pi, prev)) = last_good_answers.as_ref().filter(|(pi, _)| trace.steps[*pi].alt == so.alt) {
             let pm: BTreeMap<&str, &Answer> = prev.iter().map(|a| (a.q.as_str(), a)).collect();
             let mut d = Vec::new();
             for a in &disk_owned {
